@@ -1270,7 +1270,7 @@ VF_PART(other_sample_readers_masked_vs_removed)
       C.eval();
       C.outcome(op + (nres == "0" ? ":NO-RESULT" : reduced ? ":some-removed:" : ":nothing-removed:") + (nres == "0" ? "" : d.empty() ? "same" : "DIFFERENT"));
       if (reduced) C.nontrivial(Hash().u(id).s(op).h);
-      if (!d.empty()) C.violation(op == "Vario::computeIndic:getMeans" ? std::string("Vario::getMeans:computed-over-the-first-nvar-samples") : op + ":differs-from-removed" + (upat ? ":undefined-value" : ":selection"), op + ": " + d + what, kase);
+      if (!d.empty()) C.violation(op + ":differs-from-removed" + (upat ? ":undefined-value" : ":selection"), op + ": " + d + what, kase);
     }
     if (!cr.clean() || cr.code != 0)
     {
